@@ -672,11 +672,9 @@ func (this *Dataset) getNodeSearchClient(ctx context.Context, nodeId uint64) (pb
 		return nil, err
 	}
 
-	this.searchClientsMu.Lock()
-	defer this.searchClientsMu.Unlock()
-
-	this.searchClients[nodeId] = pb.NewSearchClient(conn)
-	return this.searchClients[nodeId], nil
+	// The client is not kept: the connection is what is expensive, and cluster.Conn caches it and
+	// replaces it when the node's address changes (a kept client would stay bound to the closed one)
+	return pb.NewSearchClient(conn), nil
 }
 
 func (this *Dataset) getCachedNodeSearchClient(nodeId uint64) pb.SearchClient {
@@ -700,11 +698,8 @@ func (this *Dataset) getDataManagerClient(ctx context.Context, nodeId uint64) (p
 		return nil, err
 	}
 
-	this.dataManagerClientsMu.Lock()
-	defer this.dataManagerClientsMu.Unlock()
-
-	this.dataManagerClients[nodeId] = pb.NewDataManagerClient(conn)
-	return this.dataManagerClients[nodeId], nil
+	// Not kept, see getNodeSearchClient
+	return pb.NewDataManagerClient(conn), nil
 }
 
 func (this *Dataset) getCachedDataManagerClient(nodeId uint64) pb.DataManagerClient {
